@@ -97,6 +97,20 @@ CLAIMED["C18"] = {
     "design_ref": "DESIGN.md §5 C18",
 }
 
+CLAIMED["C02"] = {
+    "text": "Decides structural clauses of soundness, not soundness itself: (a) the type checker's operator table "
+            "(TypeLayout::get_output_type over 13 operand kinds x 13 x 26 operators, plus same-head compound types for ==, !=, is) and the "
+            "interpreter's operator implementations, both read as finite kind tables by abstract interpretation of their MIR, agree cell by cell: "
+            "wherever the checker accepts (op,l,r) with result kind K, evaluating the operator through the bin_op/equ/neq handlers on every run-time "
+            "representation of l and r yields Ok(K), never a kind-determined error or panic (an error is allowed only for a nil operand); the "
+            "operator dispatch (Op::symbol, bin_op, bin_op_assign) is read the same way; no site builds a boxed present optional, which the "
+            "operators would not look through; unary minus is accepted only where Primitive::negate accepts it. Further clauses (built-in "
+            "signatures, dependency-walk completeness, return marking) are added as their engines land. Not decided: eq_complex over compound "
+            "types, element kinds of containers, typeof text.",
+    "technique": "static analysis: abstract interpretation of rustc MIR extracting decision tables of two sibling implementations, compared exhaustively",
+    "design_ref": "DESIGN.md §5 C02",
+}
+
 NOT_APPLICABLE = {
     "C01": "observable is program output; mechanism is relative jump offsets computed from Vec::len() arithmetic of recursively compiled blocks - deciding it needs symbolic execution of the generators (a different family); see DESIGN.md §5 C01",
     "C09": "a property of the compiler's *output* for all programs (jump targets, frame balance, operand-stack shape): needs symbolic block lengths or a verifier over emitted bytecode (translation validation), not an analysis of /repo's source; DESIGN.md §5 C09",
@@ -105,7 +119,7 @@ NOT_APPLICABLE = {
 }
 
 # no hook commits exist; the only commits made to /repo are unguarded "fix:" repairs of genuine defects (see known_findings.json)
-FIX_COMMITS = ["e2ae2a9", "cb2d1e0", "e7575e5"]
+FIX_COMMITS = ["e2ae2a9", "cb2d1e0", "e7575e5", "7bc2f7d", "0af4d83", "e4a4c00", "58e025f", "686179e", "7296d9a", "fa4b68b"]
 
 PENDING = "check not built yet in this round (framework under construction); planned per DESIGN.md §5/§8"
 
